@@ -14,14 +14,16 @@ export CARGO_NET_OFFLINE=true RUSTFLAGS="-C instrument-coverage" VERIF_ROOT="$T/
 mkdir -p $T/root && cp "$ROOT/known_findings.json" $T/root/ && mkdir -p $T/root/evidence $T/root/replays $T/root/target
 (cd "$ROOT/harness" && CARGO_TARGET_DIR=$T/h cargo +nightly build --release --offline 2>&1 | tail -2) || exit 2
 (cd "$ROOT/sched" && CARGO_TARGET_DIR=$T/s cargo +nightly build --release --offline 2>&1 | tail -2) || exit 2
-for p in C01 C02 C03 C04 C06 C07 C08 C09 C10 C11 C12 C13 C14 C15 C16 C17 C18; do
+for p in ${COV_PROPS:-C01 C02 C03 C04 C06 C07 C08 C09 C10 C11 C12 C13 C14 C15 C16 C17}; do  # C18 (2^31 states) takes 25 min instrumented: add it explicitly
   LLVM_PROFILE_FILE="$T/prof/$p-%p-%m.profraw" $T/h/release/nv $p $TIER 2>&1 | grep -E "^$p " | cut -c1-160
 done
+if [ -z "${COV_SKIP_C05:-}" ]; then
 LLVM_PROFILE_FILE="$T/prof/C05c-%p-%m.profraw" $T/h/release/nv C05conf $TIER $T/root/target/c05-conf.json 2>&1 | tail -1 | cut -c1-160
 LLVM_PROFILE_FILE="$T/prof/C05-%p-%m.profraw" $T/s/release/nv-sched $TIER $T/root/target/c05-conf.json 2>&1 | grep -E "^C05 " | cut -c1-160
+fi
 $BIN/llvm-profdata merge -sparse $T/prof/*.profraw -o $T/all.profdata || exit 2
-$BIN/llvm-cov report -instr-profile=$T/all.profdata -object $T/h/release/nv -object $T/s/release/nv-sched /repo/src 2>/dev/null | grep -E "Filename|src/|TOTAL|^-" > "$ROOT/coverage/SUMMARY.txt"
-$BIN/llvm-cov export -format=lcov -instr-profile=$T/all.profdata -object $T/h/release/nv -object $T/s/release/nv-sched /repo/src 2>/dev/null > $T/all.lcov
+$BIN/llvm-cov report -instr-profile=$T/all.profdata $T/h/release/nv -object $T/s/release/nv-sched /repo/src 2>$T/cov.err | grep -E "Filename|src/|TOTAL|^-" > "$ROOT/coverage/SUMMARY.txt"
+$BIN/llvm-cov export -format=lcov -instr-profile=$T/all.profdata $T/h/release/nv -object $T/s/release/nv-sched /repo/src 2>>$T/cov.err > $T/all.lcov; head -5 $T/cov.err
 python3 - "$T/all.lcov" "$ROOT/coverage/UNCOVERED.txt" <<'EOF'
 import sys, re, collections
 cov = collections.defaultdict(dict)
@@ -50,4 +52,4 @@ for f in sorted(cov):
 open(sys.argv[2], 'w').write("\n".join(out) + "\n")
 print("\n".join(l for l in out if not l.startswith('  ')))
 EOF
-rm -rf $T
+[ -z "${COV_KEEP:-}" ] && rm -rf $T
